@@ -358,7 +358,7 @@ pub fn check(tier: Tier, seed: u64) -> PropReport {
         tier,
         seed,
         "exploration",
-        "cases = stableswap pool states (2-4 assets; amp 1..10^6 in three log bands; decimals from {6,8,12,18} plus 0, 1 and arbitrary 0..18; size 10^-6..10^12 whole tokens; per-asset skew up to 1000:1) x (offer asset, ask asset, offer from 1 unit to 3x the offer reserve with 0-7 units of jitter) x fee sets from zero to the 20% cap; for the D engine additionally the edge of the supported range: the asset with the fewest decimals at 2^128 x f/(1000 n) in normalised units (f around 1000 = where balance x n stops fitting 128 bits, and up to n x 1000 = where the balance itself stops fitting), the others at their share of it (skew still <= 1000:1, amounts beyond 10^30 units on purpose), where the contract must either refuse or still be within the bound; engine 1 calls pool_manager::helpers::compute_swap and checks E(offer-2)-2 <= gross output <= E(offer+2)+2 and gross <= reserve, where E is the exact maximal output from big-integer bisection of the Curve invariant at 9 extra digits, bracketed so the resolution of D cannot matter; engine 2 calls compute_d_with_pool_info and checks |D - exact root| <= 2; a refusal (Err or panic) is a clean refusal; non-trivial = exact output >= 3 units and below the reserve (engine 1), every computed D (engine 2); distinct by the generated state",
+        "cases = stableswap pool states (2-4 assets; amp 1..10^6 in three log bands; decimals from {6,8,12,18} plus 0, 1 and arbitrary 0..18; size 10^-6..10^12 whole tokens; per-asset skew up to 1000:1) x (offer asset, ask asset, offer from 1 unit to 3x the offer reserve with 0-7 units of jitter) x fee sets from zero to the 20% cap; for the D engine additionally the edge of the supported range: the asset with the fewest decimals at 2^128 x f/(1000 n) in normalised units (f around 1000 = where balance x n stops fitting 128 bits, and up to n x 1000 = where the balance itself stops fitting), the others at their share of it (skew still <= 1000:1, amounts beyond 10^30 units on purpose), where the contract must either refuse or still be within the bound; engine 3 (pool histories): every stableswap swap actually executed - direct, each hop of a route (routes may come back to a pool they already traded on), the internal swap of a one-asset deposit - must have delivered what the exact invariant allows on the reserves that hop met (tracked hop by hop from the events), same bound plus one unit for the fee floors; engine 1 calls pool_manager::helpers::compute_swap and checks E(offer-2)-2 <= gross output <= E(offer+2)+2 and gross <= reserve, where E is the exact maximal output from big-integer bisection of the Curve invariant at 9 extra digits, bracketed so the resolution of D cannot matter; engine 2 calls compute_d_with_pool_info and checks |D - exact root| <= 2; a refusal (Err or panic) is a clean refusal; non-trivial = exact output >= 3 units and below the reserve (engine 1), every computed D (engine 2); distinct by the generated state",
     );
     rep.assumptions = vec![
         "exactness is relative to the invariant as parameterised in this code base (Ann = amp*n)".into(),
@@ -374,6 +374,17 @@ pub fn check(tier: Tier, seed: u64) -> PropReport {
     let e = C19D { survey: false };
     let o = drive(&e, "C19", tier, cases, seed ^ 0x5151);
     rep.push(e.name(), o);
+    // engine 3: the same bound on every stableswap swap executed in generated pool histories (the
+    // router and the one-asset deposit price through the same functions, from the reserves they load)
+    let h = crate::props::poolprops::c19_hist();
+    let hn = match tier {
+        Tier::Quick => 3000,
+        Tier::Thorough => 30_000,
+    };
+    let o = drive(&h, "C19", tier, hn, seed);
+    rep.push(h.name, o);
+    rep.floor("c19: hop on a pool the same route already traded on", hn / 20);
+    rep.floor("c19: hop stableswap swaps priced", hn / 4);
     rep.floor("within tolerance", cases / 2);
     rep.floor("D within 2 units", cases / 2);
     rep.floor("D at the 128-bit edge of normalised balances: computed", cases / 2000);
